@@ -586,3 +586,49 @@ func TestVerifTxExec(t *testing.T) {
 		_ = finalRes
 	}
 }
+
+// TestVerifDeployDestroyed: a deploy transaction for the address of a destroyed contract, with a gas price.
+// HandleDeployTransaction charges and COMMITS the fee before it looks the contract up, and returns the
+// "can not redeploy destroyed contract" error afterwards without setting notify.GasConsumed.
+func TestVerifDeployDestroyed(t *testing.T) {
+	out := vhOpenOut()
+	defer out.Close()
+	w := bxNewWorld(config.NETWORK_ID_SOLO_NET, 5851)
+	defer w.Close()
+	in := txIn{KU: 1000, Roles: []string{"P"}}
+	tw := &txWorld{w: w, in: &in, ku: big.NewInt(1000), hits: map[string]int{}}
+	tw.newGroup()
+	b := vm.NewParamsBuilder(new(bytes.Buffer))
+	txSyscall(b, neovm.CONTRACT_DESTROY_NAME)
+	b.Emit(vm.RET)
+	code := b.ToArray()
+	dc, err := payload.NewDeployCode(code, payload.NEOVM_TYPE, "verif-destroy", "1", "verif", "", "C05 self-destroying contract")
+	vhMust(err)
+	addr := dc.Address()
+	res := map[string]interface{}{}
+	ns := tw.commit([]*types.Transaction{tw.signedTx(nil, w.gacc, 0, 30000000, nil, types.Deploy, dc)})
+	res["deploy1_state"] = ns[0].State
+	call := append([]byte{byte(vm.APPCALL)}, addr[:]...)
+	ns = tw.commit([]*types.Transaction{tw.signedTx(call, w.gacc, 0, 100000, nil, types.InvokeNeo, nil)})
+	res["destroy_state"] = ns[0].State
+	destroyed, err := storage.NewCacheDB(w.store.stateStore.NewOverlayDB()).IsContractDestroyed(addr)
+	vhMust(err)
+	res["destroyed"] = destroyed
+	// fund the payer and redeploy with gas price 2500
+	price, limit := uint64(2500), uint64(neovm.CONTRACT_CREATE_GAS+1000000)
+	fund := (limit + 1000000) * price
+	st := ont.TransferState{From: w.gaddr, To: tw.addrOf("P"), Value: fund}
+	piece, err := cutils.BuildNativeInvokeCode(utils.OngContractAddress, 0, "transfer", []interface{}{[]ont.TransferState{st}})
+	vhMust(err)
+	tw.commit([]*types.Transaction{tw.signedTx(piece, w.gacc, 0, 100000, nil, types.InvokeNeo, nil)})
+	p0, g0 := tw.committedOng(tw.addrOf("P")), tw.committedOng(utils.GovernanceContractAddress)
+	ns = tw.commit([]*types.Transaction{tw.signedTx(nil, tw.roles["P"], price, limit, nil, types.Deploy, dc)})
+	p1, g1 := tw.committedOng(tw.addrOf("P")), tw.committedOng(utils.GovernanceContractAddress)
+	unit := big.NewInt(1000000000)
+	res["redeploy_state"] = ns[0].State
+	res["redeploy_gas_consumed"] = ns[0].GasConsumed
+	res["payer_paid"] = new(big.Int).Div(new(big.Int).Sub(p0, p1), unit).String()
+	res["gov_received"] = new(big.Int).Div(new(big.Int).Sub(g1, g0), unit).String()
+	res["price"], res["limit"] = price, limit
+	out.Emit(res)
+}
